@@ -5,7 +5,7 @@ from ..graph import Graph
 from ..expr import access_path, path_str, reaching_defs, norm_cond, origins, leaves, defs_in_node, is_transparent_call
 from .common import once_init, strip_casts, short, comparison, gated_by
 
-UNITS = ['sdk/src/trace/tracer.cc', 'sdk/src/common/random.cc', 'sdk/src/trace/random_id_generator.cc']
+UNITS = ['sdk/src/trace/tracer.cc', 'sdk/src/common/random.cc', 'sdk/src/trace/random_id_generator.cc', 'sdk/src/trace/span.cc']
 DRIVERS = ['api_context.cc', 'trace_headers.cc']
 CANARIES = ['c05_canary.cc']
 
@@ -338,6 +338,13 @@ def rule_r2(ck, prog, f, rule='C05.R2', need_span=True):
             ck.violation(rule, f, site, defs[0].n if defs else sink.n,
                          'scenario "%s": the parent used for sampling/identity comes from {%s}, the documented source is {%s}' %
                          (name, ','.join(sorted(kinds)) or 'nothing', ','.join(sorted(expect))))
+    # the sampler decides for every span: no path builds the new span context without having consulted it
+    ctors_ = [p for p in g.calls('trace::SpanContext::SpanContext') if len(p.n.get('args', [])) >= 4]
+    skipped = [c for c in ctors_ if not g.must_pass(c, sinks)]
+    if ctors_:
+        ck.verdict(not skipped, rule, f, 'sampler-consulted-on-every-path', (skipped[0].n if skipped else sink.n),
+                   'every path to the new span context passes ShouldSample' if not skipped else
+                   'a span context is built on a path that never asked the configured sampler (e.g. children of an unsampled parent): AlwaysOn / ratio decisions are not honoured and the decision depends on more than the sampler')
     # every other consumer of "the parent" uses the very variable the sampler saw, with no redefinition in between: the validity test
     # that selects the trace id, and the parent handed to the recording Span (its span id becomes the exported parent span id)
     spans = [p for p in g.points if p.f is f and p.n is not None and p.n['k'] == 'construct' and strip_targs(p.n.get('c', '')).endswith('sdk::trace::Span::Span')]
@@ -730,7 +737,7 @@ def rule_r6(ck, prog, rule='C05.R6'):
 
 def run(ck, prog):
     ck.doc('C05.R1', 'bit provenance of the flags byte: sampled bit = sampler decision, only level-1 bits', 2)
-    ck.doc('C05.R2', 'parent precedence decision table (6 scenarios over restricted reaching definitions); IsRootSpan/GetSpan report what the Context stores; sampler and recording Span receive the resolved parent', 9)
+    ck.doc('C05.R2', 'parent precedence decision table (6 scenarios over restricted reaching definitions); IsRootSpan/GetSpan report what the Context stores; sampler (asked on every path) and recording Span receive the resolved parent', 10)
     ck.doc('C05.R3', 'sources of trace id, span id, remote flag and trace state of the new context', 4)
     ck.doc('C05.R4', 'not-recording edge => NoopSpan with the same context; recording edge => SDK Span', 2)
     ck.doc('C05.R5', 'thread storage of the random engine, its seeding guard and the context stack; per-thread seed', 4)
@@ -749,4 +756,8 @@ def run(ck, prog):
         rule_r4(ck, prog, f, g, rd, sc)
     rule_r5(ck, prog)
     rule_r6(ck, prog)
+    # what the exporter sees of the identity (ids, parent span id, flags) is what StartSpan computed: the Span constructor rule of C04
+    from . import c04
+    ck.doc('C04.R5', '(shared rule, see C04) Span constructor: identity, flags and parent id reach the recordable from the span\'s own context / the resolved parent', 10)
+    c04.rule_r5(ck, prog)
     return {}
